@@ -34,6 +34,9 @@ pub struct HandleHist {
     pub setup: Vec<Op>,
     pub held: Vec<String>,
     pub actions: Vec<HAct>,
+    /// which content sizes the streams get before the handles are opened (see fill_size)
+    #[serde(default)]
+    pub fill: u8,
 }
 
 pub struct StartState {
@@ -84,12 +87,17 @@ pub fn start_states(version: u16, names: &[&str]) -> Vec<StartState> {
     out
 }
 
-fn fill_size(path: &str) -> usize {
-    match path {
-        "/a" => 300,
-        "/b" => 5000,
-        "/c" => 200,
-        "/d" => 0,
+/// fill 0: two mini streams and a regular one; fill 1: sizes on both sides of the 4096-byte
+/// cutoff (a mini stream that fills 64 mini sectors, a regular stream of exactly 4096 bytes).
+fn fill_size(path: &str, fill: u8) -> usize {
+    match (fill, path) {
+        (1, "/a") => 4095,
+        (1, "/b") => 4096,
+        (1, "/c") => 64,
+        (_, "/a") => 300,
+        (_, "/b") => 5000,
+        (_, "/c") => 200,
+        (_, "/d") => 0,
         _ => 100,
     }
 }
@@ -115,7 +123,7 @@ pub fn run_case(c: &HandleHist) -> Option<(String, String)> {
     // give every stream distinct content (does not change slots or shapes)
     let streams: Vec<String> = r.model.root.all_paths().into_iter().filter(|(_, k)| *k == Kind::Stream).map(|(p, _)| p).collect();
     for p in &streams {
-        let rep = r.step(&Op::Rewrite(p.clone(), fill_size(p)), &Oracles::LIGHT, &[]);
+        let rep = r.step(&Op::Rewrite(p.clone(), fill_size(p, c.fill)), &Oracles::LIGHT, &[]);
         if !rep.problems.is_empty() {
             return None;
         }
@@ -282,7 +290,7 @@ pub struct HStats {
     pub actions: u64,
 }
 
-pub fn explore(ctx: &Ctx, version: u16, names: &[&str], depth: usize, rich: bool, max_handles: usize) -> HStats {
+pub fn explore(ctx: &Ctx, version: u16, names: &[&str], depth: usize, rich: bool, max_handles: usize, fill: u8) -> HStats {
     let states = start_states(version, names);
     let mut stats = HStats { start_states: states.len() as u64, handle_choices: 0, sequences: 0, actions: 0 };
     // (state, held) work items
@@ -307,7 +315,7 @@ pub fn explore(ctx: &Ctx, version: u16, names: &[&str], depth: usize, rich: bool
             let alpha = alphabet(held, &st.streams, rich);
             let mut cnt = (0u64, 0u64);
             let mut seq: Vec<HAct> = Vec::new();
-            rec(ctx, version, st, held, &alpha, &mut seq, depth, &mut cnt);
+            rec(ctx, version, st, held, &alpha, &mut seq, depth, &mut cnt, fill);
             cnt
         })
         .collect();
@@ -316,15 +324,15 @@ pub fn explore(ctx: &Ctx, version: u16, names: &[&str], depth: usize, rich: bool
         stats.actions += b;
     }
     if let Some(st) = states.iter().find(|s| s.streams.len() >= 3) {
-        ctx.sample(json!({"handle_history": HandleHist { version, setup: st.setup.clone(), held: vec![st.streams[0].clone()], actions: vec![HAct::Comp(Op::RemoveStream(st.streams[1].clone())), HAct::WriteAt0(0, 10), HAct::Flush(0)] }}));
+        ctx.sample(json!({"handle_history": HandleHist { version, setup: st.setup.clone(), held: vec![st.streams[0].clone()], actions: vec![HAct::Comp(Op::RemoveStream(st.streams[1].clone())), HAct::WriteAt0(0, 10), HAct::Flush(0)], fill }}));
     }
     stats
 }
 
-fn rec(ctx: &Ctx, version: u16, st: &StartState, held: &[String], alpha: &[HAct], seq: &mut Vec<HAct>, depth: usize, cnt: &mut (u64, u64)) {
+fn rec(ctx: &Ctx, version: u16, st: &StartState, held: &[String], alpha: &[HAct], seq: &mut Vec<HAct>, depth: usize, cnt: &mut (u64, u64), fill: u8) {
     for a in alpha {
         seq.push(a.clone());
-        let case = HandleHist { version, setup: st.setup.clone(), held: held.to_vec(), actions: seq.clone() };
+        let case = HandleHist { version, setup: st.setup.clone(), held: held.to_vec(), actions: seq.clone(), fill };
         cnt.0 += 1;
         cnt.1 += seq.len() as u64;
         let mut extend = seq.len() < depth;
@@ -335,7 +343,7 @@ fn rec(ctx: &Ctx, version: u16, st: &StartState, held: &[String], alpha: &[HAct]
             ctx.report(Violation { sig: format!("{}:{}", class, sig_norm(&core).chars().take(90).collect::<String>()), class, msg, replay: json!({"kind": "handles", "handles": case}) });
         }
         if extend {
-            rec(ctx, version, st, held, alpha, seq, depth, cnt);
+            rec(ctx, version, st, held, alpha, seq, depth, cnt, fill);
         }
         seq.pop();
     }
